@@ -38,11 +38,11 @@ Proof. vm_compute. repeat split; reflexivity. Qed.
 Example ex_hyps : static_name ex_t "s" = true /\ resolve ex_t "C" "kp" = Some "B" /\ parent_of ex_t "B" = Some "A".
 Proof. vm_compute. repeat split; reflexivity. Qed.
 
-(* outside the hypothesis `acyclic`: interfaces P extends Q, Q extends P (the interpreter accepts
-   the declarations).  The BFS of interfaceExtends still terminates with the right answer; the plain
-   recursion of checkInterfaceIs does not (OutOfFuel here; on the interpreter `(new R) instanceof D`
-   with class R implements P dies with a Go stack overflow — observed, outside the property's
-   quantifier, which ranges over hierarchies) *)
+(* outside the hypothesis `acyclic`: interfaces P extends Q, Q extends P.  Until fix 4b3f319 the
+   interpreter accepted these declarations and `(new R) instanceof D` with class R implements P died
+   with a Go stack overflow (checkInterfaceIs has no visited set; OutOfFuel below).  Now the second
+   declaration is refused (ex_cycle_refused), so such a table cannot be built; the BFS of
+   interfaceExtends terminates with the right answer even on it. *)
 Definition cyc_t : table :=
   {| classes := [("R", {| c_extends := None; c_impls := ["P"]; c_methods := [] |});
                  ("D", {| c_extends := None; c_impls := []; c_methods := [] |})];
@@ -53,3 +53,12 @@ Example ex_cyclic :
   class_is cyc_t "Q" "R" {| c_extends := None; c_impls := ["P"]; c_methods := [] |} = Ok true /\
   instanceof cyc_t "R" {| c_extends := None; c_impls := ["P"]; c_methods := [] |} "D" = OutOfFuel.
 Proof. vm_compute. repeat split; reflexivity. Qed.
+
+Example ex_cycle_refused :
+  declare_ifaces {| classes := []; ifaces := [] |}
+    [("P", {| i_extends := ["Q"]; i_methods := [] |}); ("Q", {| i_extends := ["P"]; i_methods := [] |})] = None /\
+  declare_iface {| classes := []; ifaces := [] |} "S" {| i_extends := ["S"]; i_methods := [] |} = None /\
+  (exists t, declare_ifaces {| classes := []; ifaces := [] |}
+    [("L", {| i_extends := ["J"; "K"]; i_methods := [] |}); ("J", {| i_extends := ["I"]; i_methods := [] |});
+     ("K", {| i_extends := ["I"]; i_methods := [] |}); ("I", {| i_extends := []; i_methods := [] |})] = Some t).
+Proof. vm_compute. repeat split; eauto. Qed.
